@@ -194,7 +194,8 @@ func (ec *evalCtx) ident(name string) (TV, error) {
 	if strings.HasPrefix(name, "$done") && ec.fr != nil {
 		key := fmt.Sprintf("X:loop%s@%d", strings.TrimPrefix(name, "$done"), ec.fr.frameID)
 		if !ec.st.has(key) {
-			return TV{}, fmt.Errorf("%s: no such loop", name)
+			// a loop that does not (or no longer) exist never ran to completion
+			return TV{T: tFalse, Ty: types.Typ[types.Bool]}, nil
 		}
 		return TV{T: c.get(ec.st, key), Ty: types.Typ[types.Bool]}, nil
 	}
